@@ -1,14 +1,15 @@
 #!/bin/sh
-# tools/try_seed.sh <dir with patch.diff> <prop> [<prop>...]   -- apply a seeded change to /repo, run checks, undo.
+# tools/try_seed.sh <dir with patch.diff> <prop> [<prop>...]
+# Runs the checks against a scratch copy of /repo's HEAD with the seeded change applied (PARSO_REPO points the checks at
+# it), so /repo itself is never touched and concurrent runs are not disturbed.  The scratch copy is removed afterwards.
+# (Equivalent to: git -C /repo apply <patch>; ./check ...; git -C /repo checkout -- .)
 d="$1"; shift
-cd /repo || exit 2
-if ! git diff --quiet; then echo "/repo has local changes; refusing"; exit 2; fi
-git apply --check "$d/patch.diff" || { echo "patch does not apply"; exit 2; }
-git apply "$d/patch.diff"
-trap 'git -C /repo checkout -- . ; rm -rf /repo/parso/__pycache__ /repo/parso/*/__pycache__' EXIT INT TERM
+scr="$(mktemp -d /tmp/pv_seed_XXXXXX)"
+trap 'rm -rf "$scr"' EXIT INT TERM
+git -C /repo archive HEAD | tar -x -C "$scr" || exit 2
+( cd "$scr" && patch -p1 -s < "$d/patch.diff" ) || { echo "patch does not apply"; exit 2; }
 cd /verif
 for p in "$@"; do
   echo "=== $p on $(basename $d)"
-  ./check "$p" --tier "${TIER:-quick}" 2>&1 | grep -E "VIOLATION|KNOWN-FINDING|UNDECIDED|DEGRADED|CHECKER|tier=" | cut -c1-260 | head -${LINES_MAX:-12}
-  echo "rc=$?"
+  PARSO_REPO="$scr" PV_OUT_DIR="$scr/out" ./check "$p" --tier "${TIER:-quick}" 2>&1 | grep -E "VIOLATION|KNOWN-FINDING|UNDECIDED|DEGRADED|CHECKER|tier=" | cut -c1-260 | head -${LINES_MAX:-12}
 done
